@@ -20,7 +20,7 @@ for sid in sorted(os.listdir(os.path.join(ROOT, "seeded")), key=lambda s: (s.spl
                 first = re.sub(r"\s*\[fails for.*", "", first)[:150]
                 break
             if "bounded" in l:
-                first = "bounded: float_to_str contract"
+                first = "bounded: " + ("uncertain-state enclosure" if "enclosure" in l else "spatial lookups vs planar geometry" if "spatial" in l else "float_to_str contract")
     patch = open(os.path.join(ROOT, "seeded", sid, "patch.diff")).read()
     files = sorted(set(re.findall(r"^\+\+\+ b/(\S+)", patch, re.M)))
     note = ""
